@@ -127,6 +127,7 @@ class Gen:
         self.pending = []
         self.in_loop = 0
         self.nredef = 0
+        self.nconv = 0
 
     # ------------------------------------------------------------------ expressions
     def const(self, t):
@@ -328,7 +329,9 @@ class Gen:
             kinds += ['call'] * 3
         if sc.fns and depth < 3 and not sc.nested and self.nredef < 3 and any(not sg.effects for sg in sc.fns.values()):
             kinds += ['redef'] * 2
-        kinds += ['aug', 'with', 'exotic', 'exotic']
+        kinds += ['aug', 'with', 'exotic', 'exotic', 'passif']
+        if not sc.nested and depth < 2 and self.nconv < 1:
+            kinds += ['conv']
         if 'untyped_assign' in P:
             kinds += ['untyped'] * 2
         if 'closure_out' in P and sc.fns:
@@ -374,6 +377,59 @@ class Gen:
             for v, t in zip(names, ts):
                 sc.env[v] = frozenset({t})
             return [pad + '%s = %s' % (lhs, rhs)]
+        if k == 'passif':
+            self.features.add('pass_branch')
+            c = self.cond(sc)
+            self.apply_effects(sc)
+            a, b = sc.copy(), sc.copy()
+            out = [pad + 'if %s:' % c, pad + '    pass']
+            if r.random() < 0.6:
+                out += [pad + 'else:'] + self.stmts(b, r.choice([1, 2]), depth + 1, ind + 1)
+            sc.merge(a, b)
+            return out
+        if k == 'conv':
+            # a callee VARIABLE assigned from several local functions with mixed annotation status, then called
+            av = sc.assignable()
+            if not av:
+                return again()
+            self.nconv += 1
+            n = self.nconv
+            self.features.add('callee_variable_mixed_annotations')
+            y = r.choice(av)
+            fa, fu, fp = 'cva%d' % n, 'cvu%d' % n, 'cvp%d' % n
+            out = [pad + 'def %s(k0: int) -> int:' % fa, pad + '    return (k0 + 1)',
+                   pad + 'def %s(k0):' % fu, pad + '    return ext_i2s(k0)',
+                   pad + 'def %s(k0: int):' % fp, pad + '    return (k0, 0.5)']
+            rets = {fa: 'int', fu: 'str', fp: ('prod', 'int', 'float')}
+            cv = 'conv%d' % n
+            c = r.choice([v for v in ('c0', 'c1') if v in sc.env] or [self.cond(sc)])
+            self.apply_effects(sc)
+            form = r.choice(['ifelse', 'ifonly', 'loop', 'three'])
+            if form == 'ifelse':
+                f1, f2 = r.sample([fa, fu, fp], 2)
+                if fa not in (f1, f2):
+                    f1 = fa
+                out += [pad + 'if %s:' % c, pad + '    %s = %s' % (cv, f1), pad + 'else:', pad + '    %s = %s' % (cv, f2)]
+                used = [f1, f2]
+            elif form == 'ifonly':
+                f2 = r.choice([fu, fp])
+                out += [pad + '%s = %s' % (cv, fa), pad + 'if %s:' % c, pad + '    %s = %s' % (cv, f2)]
+                used = [fa, f2]
+            elif form == 'loop':
+                f2 = r.choice([fu, fp])
+                out += [pad + '%s = %s' % (cv, fa), pad + 'for cvi%d in [1, 2]:' % n, pad + '    if %s:' % c,
+                        pad + '        %s = %s' % (cv, f2)]
+                used = [fa, f2]
+            else:
+                out += [pad + '%s = %s' % (cv, fu), pad + 'if %s:' % c, pad + '    %s = %s' % (cv, fa), pad + 'else:',
+                        pad + '    if %s:' % self.cond(sc), pad + '        %s = %s' % (cv, fp)]
+                self.apply_effects(sc)
+                used = [fa, fu, fp]
+            arg = self.expr(sc, 'int', 1)
+            self.apply_effects(sc)
+            out.append(pad + '%s = %s(%s)' % (y, cv, arg))
+            sc.env[y] = frozenset(rets[f] for f in used)
+            return out
         if k == 'exotic':
             # constructs the inference only walks through (`generic_visit`) or types via attributes / general callees
             self.features.add('exotic')
@@ -490,7 +546,7 @@ class Gen:
             sc.env[cn] = frozenset({'int'})
             sc.frozen.add(cn)
             out += [pad + 'while %s < %d:' % (cn, r.choice([1, 2, 2]))]
-            out += self.loop_body(sc, depth, ind)
+            out += self.loop_body(sc, depth, ind, counter=cn)
             out += ['    ' * (ind + 1) + '%s = %s + 1' % (cn, cn)]
             return out
         if k == 'for':
@@ -616,7 +672,7 @@ class Gen:
             return [pad + '%s = ext_i2s(%s)' % (x, src)]
         raise ValueError(k)
 
-    def loop_body(self, sc, depth, ind, loopvar=None):
+    def loop_body(self, sc, depth, ind, loopvar=None, counter=None):
         """Body of a loop.  Every variable that exists before the loop keeps its type inside the body (it is frozen
         while the body is generated), except one planned variable whose set of types is widened *before* the body is
         generated, so that the body is valid on every iteration.  Variables first assigned in the body are only read
@@ -631,6 +687,20 @@ class Gen:
             plan = (x, t)
             sc.env[x] = sc.env[x] | {t}
             self.features.add('loop_retype')
+        # a jump / no-op node as the carrier of a copied value: `z = src` followed by continue / break / pass at the end of
+        # a branch, placed BEFORE the re-typing of `src`, so that the later type of `src` reaches `z` only through that node
+        # in a later round of the fixed-point iteration
+        jump = None
+        zc = [v for v in cands if plan is None or v != plan[0]]
+        if zc and r.random() < 0.55:
+            z = r.choice(zc)
+            srcs = [plan[0]] * 4 if plan else []
+            srcs += [v for v in sorted(sc.env) if v != z and v != loopvar]
+            if srcs:
+                srcv = r.choice(srcs)
+                sc.env[z] = sc.env[z] | sc.env[srcv]
+                jump = (z, srcv, r.choice(['continue', 'continue', 'break', 'pass']), r.choice(['then', 'else', 'passthen']))
+                self.features.add('jump_carrier:' + jump[2])
         tmp_frozen = [v for v in sc.env if v not in sc.frozen]
         sc.frozen.update(tmp_frozen)
         self.in_loop += 1            # no calls to functions that re-type nonlocals inside loops (types must be loop-invariant)
@@ -648,6 +718,20 @@ class Gen:
                 self.features.add('attr_of_untyped')
             else:
                 body.append(pad + 'ext_sink(%s)' % loopvar)
+        if jump is not None:
+            z, srcv, jk, shape = jump
+            c = self.cond(body_sc)
+            self.apply_effects(body_sc)
+            tail = [pad + '    %s = %s' % (z, srcv)]
+            if jk == 'continue' and counter is not None:
+                tail.append(pad + '    %s = %s + 1' % (counter, counter))
+            tail.append(pad + '    ' + jk)
+            if shape == 'then':
+                body += [pad + 'if %s:' % c] + tail
+            elif shape == 'else':
+                body += [pad + 'if %s:' % c, pad + '    ext_sink(%s)' % srcv, pad + 'else:'] + tail
+            else:
+                body += [pad + 'if %s:' % c, pad + '    pass', pad + 'else:'] + tail
         nb = r.choice([1, 2, 2])
         pos = r.randrange(nb + 1) if plan else -1
         for i in range(nb + 1):
